@@ -34,6 +34,10 @@ type Input struct {
 	lexemeBegin int // Pointer lexemeBegin marks the beginning of the current lexeme.
 	forward     int // Pointer forward scans ahead until a pattern match is found.
 
+	// ahead is set when forward has been retracted out of a half into the other one.
+	// The half left behind is still loaded and must not be reloaded when forward reaches it again.
+	ahead bool
+
 	offset     int // Tracks the offset (0-based), total number of runes, before lexemeBegin.
 	line       int // Tracks the line number (1-based) before lexemeBegin.
 	column     int // Tracks the column number (1-based) before lexemeBegin.
@@ -124,9 +128,17 @@ func (i *Input) next() (byte, error) {
 	// If so, it loads the other half and set the forward pointer to the beginning of it.
 	// If the forward pointer has reached to the end of input, an io.EOF error will be returned.
 	if i.forward == len(i.buff)/2 { // Is forward at the end of first half?
-		i.err = i.loadSecond()
+		if i.ahead {
+			i.ahead = false // the second half is already loaded
+		} else {
+			i.err = i.loadSecond()
+		}
 	} else if i.forward == len(i.buff) { // Is forward at the end of second half?
-		i.err = i.loadFirst()
+		if i.ahead {
+			i.ahead = false // the first half is already loaded
+		} else {
+			i.err = i.loadFirst()
+		}
 		i.forward = 0 // beginning of the first half (forward always stays within the buffer)
 	} else if i.buff[i.forward] == eof {
 		i.err = io.EOF
@@ -249,10 +261,26 @@ func (i *Input) Next() (rune, error) {
 // Retract recedes to the last rune in the input.
 func (i *Input) Retract() {
 	if size, ok := i.runeSizes.Pop(); ok {
+		half := len(i.buff) / 2
+		from := i.forward / half
+
+		// The half forward is in has been loaded,
+		// unless forward is at its very beginning with the error of loading it.
+		loaded := i.err == nil || i.forward%half != 0
+
 		i.forward -= size
 		if i.forward < 0 { // adjust the forward pointer if needed
 			i.forward += len(i.buff)
 		}
+
+		// If forward is back in the other half, the half it has left must not be loaded again.
+		if loaded && i.forward/half != from {
+			i.ahead = true
+		}
+
+		// The rune at forward is available again.
+		// Any error will be encountered again when forward gets back to where it was.
+		i.err = nil
 
 		// Check for new line
 		if i.buff[i.forward] == '\n' {
